@@ -1,5 +1,6 @@
 import Percival.Proofs.HeapEx
 import Percival.Proofs.HeapStep
+import Percival.Proofs.HeapAns
 /-!
 # C13 — pointer heap and timer queue are correct priority queues with stable handles
 
@@ -418,5 +419,62 @@ theorem run_ops_invariant (ops : List XOp) (hok : OpsOk {} ops) :
   exact ⟨hrel_facts _ _ hh, trel_facts _ _ ht⟩
 
 example : OpsOk {} [.h (.add 1 5), .h (.inc 1 7), .h .delmin] := ⟨trivial, trivial, trivial, trivial⟩
+
+/-! ## The monitor reads what the model prints: `XOut.l1` is read ∘ print
+
+`Driver/Heap.render o` is the tokens `Heap.l1Toks o` joined by single spaces, then ` | ` and the L2 part (by definition);
+`Driver/Heapmon.parseAns` is the reader `pmodel heapmon` applies to the tokens of the part before ` | `.
+`Proofs/HeapAns.lean`: number printing and reading (`Nat.repr` / `Int.repr` / `String.toNat?` / `String.toInt?`), the
+`,`-separated id lists, the words `none` / `-` — everything between the typed output and the token list. -/
+
+open Percival.Proofs.HeapAns in
+/-- **For every typed output `o` of the model, reading the L1 tokens it prints as the answer to an operation of the
+same object (heap / timer queue) gives `o.l1`** — the answer `run_ops_accepted` feeds to the monitor; the output of
+`stepOp` is always of the operation's object; cutting the L1 part of the printed line at the spaces gives back exactly
+these tokens (no token contains a space).  Not covered: that `Driver/Loop.loopMon` cuts the line with
+`String.splitOn " "` (a different splitting function than the `String.split ' '` of the statement) and that
+`tools/vlib.py` cuts at ` | `; `KAT/HeapAns.lean` tests these on an output of every shape. -/
+theorem monitor_reads_printed_answer (o : XOut) :
+    (∀ op, sameKind op o → Driver.Heapmon.parseAns op (Driver.Heap.l1Toks o) = some o.l1) ∧
+    (∀ s op, sameKind (XOp.toI op) (stepOp s op).2) ∧
+    Driver.Heapmon.splitCh ' ' (" ".intercalate (Driver.Heap.l1Toks o)) = Driver.Heap.l1Toks o ∧
+    Driver.Heap.render o =
+      " ".intercalate (Driver.Heap.l1Toks o) ++ (match Driver.Heap.l2Str o with | some s => " | " ++ s | none => "") :=
+  ⟨fun op h => parseAns_l1Toks op o h, stepOp_sameKind, split_l1 o, rfl⟩
+
+/-- the tokens of real lines: `ok 3 | log=… a=…`, `rel 42 | r=7 …` (the record is not shown at L1), `tdrain 5,0` -/
+example : Driver.Heap.l1Toks (.h { ans := .okId 3, l2 := some { notes := [(3, 0)], a := #[3] } }) = ["ok", "3"] ∧
+    Driver.Heap.l1Toks (.t { ans := .ans (.rel (some (7, 42))) }) = ["rel", "42"] ∧
+    Driver.Heap.l1Toks (.t { ans := .ans (.tmin (some (-3, 5))) }) = ["tmin", "-3", "5"] ∧
+    Driver.Heap.l1Toks (.t { ans := .drained [5, 0] }) = ["tdrain", "5,0"] ∧
+    Driver.Heap.l1Toks (.h { ans := .drained [] }) = ["drain", "-"] := by decide +kernel
+open Percival.Proofs.HeapAns in
+example : sameKind (.h .getmin) (.h { ans := .min (some 3) }) ∧ ¬ sameKind (.t .drain) (.h { ans := .min (some 3) }) :=
+  ⟨trivial, id⟩
+
+open Percival.Proofs.HeapAns in
+/-- **Every case, at the level of the text the two executables exchange.**  For every list of operation lines
+(token lists) that `pmodel heap` can read — `ops` being what it reads — and that is within `OpsOk`:
+the lines `pmodel heap` prints (`printed`: `Driver/Heap.step` along the case) are `render` of the outputs of `runOps`;
+`pmodel heapmon` reads each operation line as the same operation (`parseOp = parse.map toI`); and
+**`Driver/Heapmon.step` — the whole function the monitor executable applies to (operation line, answer line) — run
+along the case on the L1 tokens the model prints, answers `ok` on every line** (`verdicts`). -/
+theorem monitor_accepts_printed_run (lines : List (List String)) (ops : List XOp)
+    (hp : lines.mapM Driver.Heap.parse = some ops) (hok : OpsOk {} ops) :
+    printed {} lines = (runOps {} ops).2.map Driver.Heap.render ∧
+    (∀ l, Driver.Heapmon.parseOp l = (Driver.Heap.parse l).map XOp.toI) ∧
+    verdicts {} (lines.zip ((runOps {} ops).2.map Driver.Heap.l1Toks)) = List.replicate lines.length "ok" :=
+  ⟨printed_eq lines ops {} hp, parseOp_eq, verdicts_ok lines ops {} {} hp (run_ops_accepted ops hok)⟩
+
+/-- operation lines that are read as the first demonstration case of `run_ops_accepted` -/
+example : [["add", toString (1 : Nat), toString (5 : Int)], ["add", toString (2 : Nat), toString (3 : Int)], ["getmin"],
+      ["del", toString (1 : Nat)], ["drain"]].mapM Driver.Heap.parse =
+    some [.h (.add 1 5), .h (.add 2 3), .h .getmin, .h (.del 1), .h .drain] := by
+  simp only [List.mapM_cons, List.mapM_nil, Driver.Heap.parse, Proofs.DsAns.nat_rt, Proofs.DsAns.int_rt]
+  rfl
+/-- the monitor executable does reject: `skip` as the answer to a legal `add`, a wrong minimum -/
+example : (Driver.Heapmon.step {} ["add", toString (1 : Nat), toString (5 : Int)] ["skip"]).2 = "bad add failed" := by
+  simp only [Driver.Heapmon.step, Driver.Heapmon.parseOp, Proofs.DsAns.nat_rt, Proofs.DsAns.int_rt]
+  rfl
 
 end Percival.C13
